@@ -1078,6 +1078,7 @@ def list_method(E, lv, name, args, kwargs):
         x = args[0]
         if lv.et is None:
             lv.et = type_of_value(x)
+        x = E.coerce(lv.et, x)      # an optional value stored into a non-optional slot must be non-None (obligation)
         terms = pack(lv.et, x)
         E.set_larrs(lv, [z3.Store(a, n, t) for a, t in zip(E.larrs(lv), terms)])
         E.set_llen(lv, n + 1)
